@@ -9,6 +9,8 @@ import proto
 from common import Failure, Outcome, Broken, REPO
 from gen import pick, gen_str, gen_atom, KEYS
 from vakt.guard import Inquiry
+from vakt.policy import Policy
+from vakt.rules import Eq
 
 MODULE = 'Props.C13'
 THEOREMS = ['Vakt.C13.eq_iff_canon', 'Vakt.C13.eq_iff_fields', 'Vakt.C13.eqv_equivalence', 'Vakt.C13.eq_hash',
@@ -171,7 +173,13 @@ def enc_tuple(x):
     return x
 
 
+_NOISE_POLICY = None
+
+
 def run(ctx):
+    global _NOISE_POLICY
+    _NOISE_POLICY = Policy('n1', subjects=[{'b': Eq(1), 'a': Eq(2)}], actions=[Eq('x')], resources=[{'z': Eq(1), 'y': Eq(0)}],
+                           context={'k2': Eq(1), 'k1': Eq(2)})
     out = Outcome()
     rng = ctx.rng
     n = ctx.budget(2500, 100000)
@@ -209,6 +217,24 @@ def run(ctx):
         except (proto.ProtoError, TypeError):
             out.count('unencodable')
             continue
+        # other library activity in between (serialising policies / inquiries must not disturb comparisons)
+        noise = None
+        if rng.random() < 0.35:
+            noise = pick(rng, ['policy.to_json()', 'policy.to_json(sort=True)', 'inquiry.to_json()',
+                               'policy round trip', 'hash first'])
+            try:
+                if noise == 'policy.to_json()':
+                    _NOISE_POLICY.to_json()
+                elif noise == 'policy.to_json(sort=True)':
+                    _NOISE_POLICY.to_json(sort=True)
+                elif noise == 'inquiry.to_json()':
+                    Inquiry(subject={'b': 1, 'a': {'d': 1, 'c': 2}}).to_json()
+                elif noise == 'policy round trip':
+                    Policy.from_json(_NOISE_POLICY.to_json())
+                else:
+                    hash(qb), _NOISE_POLICY.to_json()
+            except Exception:
+                pass
         try:
             eq = qa == qb
             eq2 = qb == qa
@@ -223,7 +249,7 @@ def run(ctx):
         want = inq_content_eq(a, b)
         out.evaluations += 1
         out.count('%s:%s' % (kind, eq))
-        desc = {'a': repr(a), 'b': repr(b), 'kind': kind}
+        desc = {'a': repr(a), 'b': repr(b), 'kind': kind, 'preceded_by': noise}
         prob = None
         if eq is not want:
             prob = '== says %s, content comparison (key order irrelevant, JSON type distinctions kept) says %s' % (eq, want)
